@@ -222,10 +222,15 @@ func (m *Machine) callSSA(caller *frame, pos token.Pos, fn *ssa.Function, args [
 	return m.callSSA2(caller, pos, fn, args, env)
 }
 
+// runRealBody is returned by an intrinsic that declines: the function's own code is interpreted.
+type runRealBody struct{}
+
 func (m *Machine) callSSA2(caller *frame, pos token.Pos, fn *ssa.Function, args []Value, env []Value) Value {
 	if fn.Parent() == nil {
 		if in := m.W.intrinsic(fn); in != nil {
-			return in(m, caller, fn, args)
+			if r := in(m, caller, fn, args); r != (runRealBody{}) {
+				return r
+			}
 		}
 		if m.Conf.StubText != nil && m.inPath && m.Conf.StubText[fn.String()] {
 			// message-formatting helper declared "not the subject" by the property's
